@@ -210,7 +210,20 @@ pub fn load_findings() -> Findings {
 impl Findings {
     pub fn open_match(&self, property: &str, sig: &Option<String>) -> Option<&Finding> {
         let s = sig.as_ref()?;
-        self.findings.iter().find(|f| f.status == "open" && f.property == property && &f.signature == s)
+        // signature = "<solver>:<class>+tag+tag": heads must be equal, the finding's tags a subset of the violation's
+        let split = |x: &str| -> (String, Vec<String>) {
+            let mut it = x.split('+');
+            let head = it.next().unwrap_or("").to_string();
+            (head, it.map(|t| t.to_string()).collect())
+        };
+        let (vh, vt) = split(s);
+        self.findings.iter().find(|f| {
+            if f.status != "open" || f.property != property || f.signature.is_empty() {
+                return false;
+            }
+            let (fh, ft) = split(&f.signature);
+            fh == vh && ft.iter().all(|t| vt.contains(t))
+        })
     }
 }
 
